@@ -117,8 +117,12 @@ def run(tier):
     rep = Report("C09", tier, "translation_validation")
     crate_dir = os.path.join(WIT, "pos")
     configs = [("plain", (), ())] if tier == "quick" else [("plain", (), ()), ("test", (), ("test",))]
-    for cfgname, feats, cfgs in configs:
-        R, T, attrs = load_pair(rep, crate_dir, "wit_pos", feats, cfgs)
+    from ..traitgen import generate as traitseq_generate
+    crates = [(crate_dir, "wit_pos", cfgname, feats, cfgs) for cfgname, feats, cfgs in configs]
+    # script-enumerated traits (vlib/traitgen.py): header shapes x selectors x method shapes
+    crates.append((traitseq_generate(tier)[0], "wit_traitseq", "plain", (), ()))
+    for cdir, cname, cfgname, feats, cfgs in crates:
+        R, T, attrs = load_pair(rep, cdir, cname, feats, cfgs)
         rmods = {it.kind_and_name()[1]: it for it in R if it.kind_and_name()[0] == "mod"}
         silent = Report("C09", tier, "other")  # C02's findings are not C09's: walk with a scratch report
         for t in T:
